@@ -204,6 +204,11 @@ pub fn eval(initial: &str, batches: &[Vec<Change>]) -> Option<(String, String)> 
     }
 }
 
+/// a line of more than 65 536 UTF-16 units behind an astral character, then 300 short lines
+pub fn long_document() -> String {
+    format!("{}\u{1f600}{}\n{}", "a".repeat(300), "b".repeat(70_000), "x\u{e9}\n".repeat(300))
+}
+
 /// round trip: ranges the server reports for identifier tokens, sent back as positions,
 /// address the same token
 pub fn round_trip(text: &str) -> Vec<(String, String)> {
@@ -285,6 +290,37 @@ pub fn run(tier: Tier) -> Report {
             out
         })
         .collect();
+    // (1b) a long document: a line of more than 65 536 UTF-16 units (with an astral character
+    // in front) and more than 256 lines; every ordered pair of positions around the 8 and 16
+    // bit boundaries of columns and lines
+    {
+        let long = long_document();
+        let cols: Vec<u32> = vec![0, 254, 255, 256, 257, 300, 301, 302, 303, 65_534, 65_535, 65_536, 65_537, 70_301, 70_302, 70_303, 99_999];
+        let mut ps: Vec<(u32, u32)> = cols.iter().map(|c| (0u32, *c)).collect();
+        for l in [1u32, 254, 255, 256, 257, 299, 300, 301, 302] {
+            for c in [0u32, 1, 2, 3] {
+                ps.push((l, c));
+            }
+        }
+        let pairs: Vec<((u32, u32), (u32, u32))> = ps.iter().enumerate().flat_map(|(i, a)| ps[i..].iter().map(move |b| (*a, *b))).collect();
+        let f1b: Vec<Failure> = pairs
+            .par_iter()
+            .flat_map_iter(|(a, b)| {
+                let mut out = vec![];
+                for r in ["", "\u{1f600}\n"] {
+                    let c = Change { range: Some((a.0, a.1, b.0, b.1)), text: r.to_string() };
+                    evals.fetch_add(1, Ordering::Relaxed);
+                    nontrivial.fetch_add(1, Ordering::Relaxed);
+                    if let Some((k, d)) = eval(&long, &[vec![c.clone()]]) {
+                        out.push(Failure { key: format!("sync:{}:long-document", k), case: json!({"long_document": true, "batches": [[change_json(&c)]]}), detail: truncate(&d, 400) });
+                    }
+                }
+                out
+            })
+            .collect();
+        let mut seen: HashSet<String> = HashSet::new();
+        fails.extend(f1b.into_iter().filter(|f| seen.insert(f.key.clone())));
+    }
     // (2) notifications with two and three events (texts one size smaller)
     let small = Strings::new(ALPHA, tier.pick(2, 3));
     let f2: Vec<Failure> = (0..small.count())
@@ -415,7 +451,13 @@ pub fn replay(case: &Value) -> Vec<Failure> {
     if let Some(t) = case.get("round_trip_text").and_then(|v| v.as_str()) {
         return round_trip(t).into_iter().map(|(k, d)| Failure { key: k, case: case.clone(), detail: d }).collect();
     }
-    let initial = case["initial"].as_str().unwrap_or("");
+    let long;
+    let initial = if case["long_document"] == json!(true) {
+        long = long_document();
+        long.as_str()
+    } else {
+        case["initial"].as_str().unwrap_or("")
+    };
     let batches: Vec<Vec<Change>> = case["batches"]
         .as_array()
         .map(|bs| bs.iter().map(|b| b.as_array().map(|cs| cs.iter().map(parse_change).collect()).unwrap_or_default()).collect())
